@@ -258,8 +258,22 @@ class SArr:
     def tolist(self):
         raise Unsupported("tolist() of a symbolic array")
 
-    def __array__(self, *a, **k):
-        raise Unsupported("conversion of a symbolic array to a real ndarray")
+    def __array__(self, dtype=None, copy=None):
+        """The array reaches compiled numpy code that the model does not cover: REALISE it, i.e.
+        concretise every cell by solver-guided forks (finite domains only - an unbounded cell raises
+        Unsupported).  Recorded as a tag so that the evidence shows where the claim was decided by
+        case split over cell values instead of symbolically."""
+        c = cur()
+        c.tag("realised_array_at_C_boundary")
+        out = np.empty(self.c.shape, dtype=object)
+        for idx in np.ndindex(*self.c.shape):
+            e = self.c[idx]
+            if z3.is_bool(e):
+                out[idx] = c.decide(e)
+            else:
+                out[idx] = c.concretize(e)
+        dt = dtype or (np.bool_ if self.is_bool() else self.dtype)
+        return out.astype(dt)
 
     # ---- numpy protocols
     def __array_function__(self, func, types, args, kwargs):
